@@ -1,0 +1,28 @@
+//go:build verif
+
+package eio
+
+import (
+	"time"
+
+	"github.com/karagenc/socket.io-go/engine.io/parser"
+	"github.com/karagenc/socket.io-go/engine.io/transport"
+)
+
+// VerifServerSocket exposes the unexported serverSocket (Send, upgradeTo) to the verification
+// harness, so that a socket can be built on caller-supplied transports without a network.
+type VerifServerSocket struct{ s *serverSocket }
+
+// VerifNewServerSocket builds a server socket on transport t; c must be the callbacks t was
+// created with.  Heartbeats are far away (1 h) so that only the caller's packets are sent.
+func VerifNewServerSocket(id string, t ServerTransport, c *transport.Callbacks) *VerifServerSocket {
+	return &VerifServerSocket{s: newServerSocket(id, nil, t, c, time.Hour, time.Hour, NewNoopDebugger(), nil)}
+}
+
+func (v *VerifServerSocket) Send(packets ...*parser.Packet) { v.s.Send(packets...) }
+
+// UpgradeTo runs the socket's transport swap (what the server does on the UPGRADE packet).
+func (v *VerifServerSocket) UpgradeTo(t ServerTransport, c *transport.Callbacks) { v.s.upgradeTo(t, c) }
+
+func (v *VerifServerSocket) Transport() ServerTransport { return v.s.Transport() }
+func (v *VerifServerSocket) Close()                     { v.s.Close() }
